@@ -160,6 +160,17 @@ def _summary(I, n, g, xs: SymSeq, st: State):
         raise OutsideSubset("comprehension element expression may raise")
     # result kind
     sample = ealts[0][1][0]
+    from verif.pyvc.interp import SObj as _SObj
+
+    if isinstance(sample, (_SObj, SDict)) and not exprs:
+        # map to freshly built objects, no filter: same length, element i = template with j := i
+        if len(ealts) != 1:
+            raise OutsideSubset("object-building comprehension with branching element expression")
+        template = sample
+        out = SymSeq(None, "obj", f"map({xs.name})", xs.length, getattr(template, "cls", "dict"), lambda i, t=template, j=j: subst_tree(t, j, i if V.is_z3(i) else z3.IntVal(i)))
+        out.fresh = True
+        yield st, out
+        return
     obj_mode = xs.kind == "obj" and isinstance(sample, SymObj)
     if obj_mode and not (isinstance(n.elt, ast.Name) and isinstance(g.target, ast.Name) and n.elt.id == g.target.id):
         raise OutsideSubset("mapping comprehension over objects")
@@ -182,6 +193,8 @@ def _summary(I, n, g, xs: SymSeq, st: State):
     ax.append(z3.Implies(r_len > 0, z3.And(rng(d0), p_at(d0))))
     ax.append(z3.Implies(r_len > 1, z3.And(rng(d1), p_at(d1), d0 < d1)))
     pat = xs.at(j).ref if obj_mode else xs.at(j)
+    if not V.is_z3(pat):
+        pat = j + 0
     ax.append(z3.ForAll([j], z3.Implies(z3.And(in_range, p_j), z3.And(r_len > 0, j >= d0)), patterns=[pat]))
     ax.append(z3.ForAll([j], z3.Implies(z3.And(in_range, p_j, j != d0), z3.And(r_len > 1, j >= d1)), patterns=[pat]))
     if not obj_mode:
@@ -202,6 +215,25 @@ def _summary(I, n, g, xs: SymSeq, st: State):
         out.src = (xs, None, p_j, j)
     out.fresh = True
     yield st, out
+
+
+def subst_tree(v: Any, j: z3.ExprRef, i: z3.ExprRef) -> Any:
+    from verif.pyvc.interp import SObj as _SObj
+
+    if V.is_z3(v):
+        return z3.substitute(v, (j, i))
+    if isinstance(v, _SObj):
+        return _SObj(v.cls, {k: subst_tree(x, j, i) for k, x in v.fields.items()}, v.fresh)
+    if isinstance(v, SList):
+        return SList([subst_tree(x, j, i) for x in v.items], v.fresh)
+    if isinstance(v, STuple):
+        return STuple(subst_tree(x, j, i) for x in v.items)
+    if isinstance(v, SDict):
+        d = SDict({k: subst_tree(x, j, i) for k, x in v.entries.items()}, v.fresh)
+        return d
+    if isinstance(v, SymObj):
+        return SymObj(z3.substitute(v.ref, (j, i)), v.cls, v.exact)
+    return v
 
 
 def quantified(I, kind: str, gen: ast.GeneratorExp, st: State) -> Iterator[tuple[State, Any]]:
